@@ -337,7 +337,8 @@ CHECKS["C15"] = {
               "a call that is provably blocked when its context ends must return a non-nil error within the stated bound - exact on the virtual clock (1 ms at a deadline; 5 s poll interval for a "
               "cancellation on TCP), 1 s of slack and two isolated re-runs on real sockets. Plus (TestC15FinishBusy, real time) ServerChannel.FinishSession / FailSession on an established session whose peer keeps writing and whose application keeps consuming, over the in-process transport and loopback TCP, 12 (thorough: 120) rounds per combination: the call returns within its context plus the bound. And (TestC15AfterDeadContext) every channel operation with a 300 ms deadline called right after a channel operation whose context was already cancelled or expired, on the same channel. "
               "transport.receive also against a slow peer that writes an envelope one byte every 700 ms (never a gap as long as the I/O poll). "
-              "Plus the high-level Client in real time against a server that accepts the connection and then says nothing (the Client's own listener is in an establishment that cannot finish): Establish, SendMessage, SendNotification, SendRequestCommand and ProcessCommand, three calls in a row, deadline or cancellation after 30 / 300 ms, in-process and TCP: each returns an error within 1 s of its context's end (6 s for a cancellation on TCP)."),
+              "Plus the high-level Client in real time against a server that accepts the connection and then says nothing (the Client's own listener is in an establishment that cannot finish): Establish, SendMessage, SendNotification, SendRequestCommand and ProcessCommand, three calls in a row, deadline or cancellation after 30 / 300 ms, in-process and TCP: each returns an error within 1 s of its context's end (6 s for a cancellation on TCP). "
+              "And ProcessCommand with an unconsumed response stream (more unsolicited responses than the channel buffers hold, nobody draining RespCmdChan), issued before or after they arrive, in-process and TCP, real time: it returns within 1.5 s of its context's end."),
     "note": "Blocking is established with synctest.Wait (virtual) or by still being pending 20 ms before the end (real); 'peer not reading' is produced by sending until a send blocks.",
     "technique": "exhaustive enumeration of (operation, transport, context end, moment) + rapid timings, latency oracle on a virtual clock; sampled real-socket cases",
     "rule": ("case = (operation, transport, deadline|cancel, time). Non-trivial: the operation was blocked when the context ended. Distinct by SHA-1 of the case."),
@@ -349,6 +350,7 @@ CHECKS["C15"] = {
         {"test": "TestC15Real", "kind": "plain", "timeout": (300, 900), "gomaxprocs": [8]},
         {"test": "TestC15AfterDeadContext", "kind": "plain", "shards": 4, "timeout": (300, 900)},
         {"test": "TestC15ClientSilentServer", "kind": "plain", "shards": 10, "timeout": (300, 1500), "gomaxprocs": [4]},
+        {"test": "TestC15UnconsumedResponses", "kind": "plain", "shards": 4, "timeout": (300, 1500), "gomaxprocs": [4]},
         {"test": "TestC15FinishBusy", "kind": "plain", "shards": (6, 12), "timeout": (300, 1500), "gomaxprocs": [4, 8, 2, 16, 4, 8, 2, 16, 4, 8, 2, 16]},
         {"test": "TestC15", "kind": "rapid", "shards": 6, "checks": (800, 30000), "timeout": (300, 3000)},
     ],
